@@ -1,16 +1,16 @@
 SPECIFICATION Spec
 CONSTANTS
-  Mode = "matrix"
-  ProtoSets <- QProtoSets
+  Mode = "errors"
+  ProtoSets <- SingleProtoSets
   CodecSeqs <- QCodecSeqs
-  CompSeqs <- QCompSeqs
+  CompSeqs <- NoCompSeqs
   ClientForms <- QForms
   ClientCodecs <- QCodecs
-  ClientComps <- QComps
+  ClientComps <- NoComps
   Methods <- QMethods
-  MaxMsgs = 2
-  EndCodes <- OkOnly
-  HttpStatuses <- NoStatuses
+  MaxMsgs = 1
+  EndCodes <- TCodes
+  HttpStatuses <- TStatuses
   FlagValues <- QFlags
   Emit = TRUE
 INVARIANT TypeOK
